@@ -119,7 +119,7 @@ def _eq(a, b):
 
 
 def gen_cases(tier, seed):
-    n = {"quick": 1500, "thorough": 30000}[tier]
+    n = {"quick": 1500, "thorough": 150000}[tier]
     cases = []
     for i in range(n):
         s = stable_hash(seed, "C16", i)
